@@ -33,7 +33,7 @@ fn n_grid_c() -> u64 {
 
 // mixed batches: dead IDs in front of live ones, duplicates, same-deadline modification
 fn n_grid_d() -> u64 {
-    14
+    16
 }
 
 fn grid(_p: &EpParams) -> u64 {
@@ -427,7 +427,7 @@ async fn grid_c(p: &EpParams, case: u64) -> EpReport {
 /// accepted request must be treated as if it had been sent alone.
 async fn grid_d(p: &EpParams, case: u64) -> EpReport {
     let mut rep = EpReport::default();
-    let stream = matches!(case, 2 | 3 | 8 | 12 | 13);
+    let stream = matches!(case, 2 | 3 | 8 | 12 | 13 | 14 | 15);
     let mut su = setup(p, stream).await;
     if su.ids.len() != 2 {
         rep.inconclusive("setup did not hand out two messages");
@@ -507,6 +507,17 @@ async fn grid_d(p: &EpParams, case: u64) -> EpReport {
             if got.len() != 2 {
                 rep.viol("C05", "C05:nack-not-available", format!("ModifyAckDeadline([a2, a1, a2], 0) made {} of 2 messages available", got.len()));
             }
+        }
+        14 | 15 => {
+            // one control message names the same delivery as acknowledged and as modified (nacked /
+            // extended): it was acknowledged, so it must not come back
+            let secs = if case == 14 { 0 } else { 30 };
+            label = if case == 14 { "stream ack [a1] + modify [a1] secs [0]" } else { "stream ack [a1] + modify [a1] secs [30]" };
+            let now = su.seq.now();
+            su.seq.streams[&s].send(&[a1.clone()], &[a1.clone()], &[secs]);
+            su.w.settle().await;
+            su.seq.m.acked(&s, &[a1.clone()], now);
+            su.seq.after_step("AckModify").await;
         }
         8 => {
             label = "stream ack [unknown, a1] + modify [unknown, a2] +30";
